@@ -584,3 +584,92 @@ Proof.
     + exact (rp_wn _ _ _ R).
   - constructor; cbn; [lia|lia|]. intros x y Hp. left. destruct (in_upd_node _ _ _ _ _ Hp) as (y0 & H0 & [->| ->]); eauto.
 Qed.
+
+Lemma NoDup_app_snoc : forall (A : Type) (l : list A) x, NoDup l -> ~ In x l -> NoDup (l ++ [x]).
+Proof.
+  induction l as [|y l IH]; intros x Hnd Hx; cbn; [constructor; [intros []|constructor]|].
+  inversion Hnd as [|? ? Hy Hnd']; subst. constructor.
+  - intro Hi. apply in_app_or in Hi. destruct Hi as [Hi|[E|[]]]; [contradiction|]. subst. apply Hx. left. reflexivity.
+  - apply IH; auto. intro Hi. apply Hx. right. exact Hi.
+Qed.
+
+Lemma max_id_binds : forall l, max_id l = fold_left maxf l 0.
+Proof. reflexivity. Qed.
+
+Lemma rep_bind : forall w hw lp ev flags fn e, Rep w hw lp ->
+  let name := if has flags BIND_FIRST then - wn w else wn w in
+  let id := max_id (first (ws w)) + 1 in
+  let nb := mkB id ev (Z.land flags (BIND_UNBIND + BIND_DESTROY + BIND_ONESHOT)) fn name in
+  let s1 := mkS (if has flags BIND_FIRST then nb :: first (ws w) else first (ws w) ++ [nb]) (is_iter (ws w)) (needs_del (ws w)) in
+  exists h1 lp', h_bind_event (hs hw) ev flags fn name = Ok (h1, id) /\
+     Rep (mkW s1 (wn w + 1) (e :: wt w)) (mkHW h1 (hn hw + 1) (e :: ht hw)) lp' /\
+     Evolves w hw lp (mkW s1 (wn w + 1) (e :: wt w)) (mkHW h1 (hn hw + 1) (e :: ht hw)) lp'.
+Proof.
+  intros w hw lp ev flags fn e R name id nb s1.
+  pose proof (rp_wn _ _ _ R) as Hwn.
+  assert (Hname : Z.abs name = wn w) by (unfold name; destruct (has flags BIND_FIRST); lia).
+  set (a := hfresh (hs hw)).
+  assert (Hafresh : ~ In a (addrs lp)) by (intro Hi; pose proof (rp_fresh _ _ _ R a Hi); unfold a in *; lia).
+  assert (Hnfresh : ~ In name (names (binds lp))) by (intro Hi; pose proof (rp_bound _ _ _ R name Hi); lia).
+  assert (Hmax : fold_left maxf (binds lp) 0 + 1 = id) by (unfold id; rewrite (rp_list _ _ _ R); reflexivity).
+  assert (Hev : forall lp', (forall x y, In (x, y) lp' -> In (x, y) lp \/ (x, y) = (a, nb)) -> forall h1, hfresh h1 = Pos.succ a ->
+            Evolves w hw lp (mkW s1 (wn w + 1) (e :: wt w)) (mkHW h1 (hn hw + 1) (e :: ht hw)) lp').
+  { intros lp' Hsub h1 Hfr. constructor; cbn; [lia|rewrite Hfr; unfold a; lia|].
+    intros x y Hp. destruct (Hsub x y Hp) as [Ho|E]; [left; eauto|]. inversion E; subst x y. right. cbn. unfold a. lia. }
+  unfold h_bind_event. destruct (has flags BIND_FIRST) eqn:Efirst.
+  - (* at the head *)
+    rewrite (max_from_spec _ _ _ (rp_chain _ _ _ R) _ 0 (rep_fuel _ _ _ R)). cbn [rbind]. rewrite Hmax.
+    unfold halloc. fold a. cbn [write_slot rbind].
+    exists (set_first (mkH (BM.add a (mkC (hfirst (hs hw)) id ev (Z.land flags (BIND_UNBIND + BIND_DESTROY + BIND_ONESHOT)) fn name) (cells (hs hw)))
+                           (hfirst (hs hw)) (hiter (hs hw)) (hdel (hs hw)) (Pos.succ a)) (Some a)), ((a, nb) :: lp).
+    split; [reflexivity|]. split.
+    + constructor; cbn.
+      * rewrite (rp_list _ _ _ R). reflexivity.
+      * econstructor; [apply BM.gss|]. eapply hchain_ext; [exact (rp_chain _ _ _ R)|].
+        intros x Hx. apply BM.gso. intro; subst; contradiction.
+      * constructor; [exact Hafresh|exact (rp_nodup _ _ _ R)].
+      * intros x Hx. destruct (Pos.eq_dec x a) as [->|Hne]; [left; reflexivity|]. right.
+        rewrite BM.gso in Hx by auto. exact (rp_exact _ _ _ R x Hx).
+      * intros x [E|Hx]; [rewrite <- E; lia|]. pose proof (rp_fresh _ _ _ R x Hx). unfold a. lia.
+      * exact (rp_iter _ _ _ R).
+      * exact (rp_del _ _ _ R).
+      * rewrite (rp_n _ _ _ R). reflexivity.
+      * rewrite (rp_t _ _ _ R). reflexivity.
+      * constructor; [exact Hnfresh|exact (rp_names _ _ _ R)].
+      * intros d [E|Hd]; [rewrite <- E; lia|]. pose proof (rp_bound _ _ _ R d Hd). lia.
+      * lia.
+    + apply Hev; [|reflexivity]. intros x y [E|Hp]; [right; symmetry; exact E|left; exact Hp].
+  - (* at the end *)
+    rewrite (end_from_spec _ _ _ (rp_chain _ _ _ R) _ BFirst 0 (rep_fuel _ _ _ R) eq_refl). cbn [rbind]. rewrite Hmax.
+    unfold halloc. fold a.
+    set (h1 := mkH (BM.add a (mkC None id ev (Z.land flags (BIND_UNBIND + BIND_DESTROY + BIND_ONESHOT)) fn name) (cells (hs hw)))
+                   (hfirst (hs hw)) (hiter (hs hw)) (hdel (hs hw)) (Pos.succ a)).
+    assert (Hc1 : hchain (cells h1) (hfirst h1) lp).
+    { eapply hchain_ext; [exact (rp_chain _ _ _ R)|]. intros x Hx. apply BM.gso. intro; subst; contradiction. }
+    assert (Hc1' : hchain (cells h1) (hfirst h1) (lp ++ [])) by (rewrite app_nil_r; exact Hc1).
+    destruct (hchain_split _ _ _ _ Hc1') as (k2 & Hs1).
+    assert (Hv : hchain (cells h1) (Some a) [(a, nb)]).
+    { econstructor; [apply BM.gss|constructor]. }
+    destruct (write_slot_after lp h1 _ k2 [] (Some a) [(a, nb)] Hs1 eq_refl (rp_nodup _ _ _ R)) as (h2 & Hw & Hc2 & Hfr2 & Hdom2 & Hi2 & Hd2 & Hn2).
+    { intros x Hx [E|[]]. cbn in E. subst x. contradiction. }
+    { exact Hv. }
+    fold (slot_after lp). rewrite Hw. cbn [rbind].
+    exists h2, (lp ++ [(a, nb)]). split; [reflexivity|]. split.
+    + constructor; cbn.
+      * rewrite (rp_list _ _ _ R). rewrite binds_snoc. reflexivity.
+      * exact Hc2.
+      * unfold addrs. rewrite map_app. cbn. apply NoDup_app_snoc; [exact (rp_nodup _ _ _ R)|exact Hafresh].
+      * intros x Hx. apply in_addrs_app. destruct (Pos.eq_dec x a) as [->|Hne]; [right; left; reflexivity|]. left.
+        apply (rp_exact _ _ _ R). intro Hnone. apply Hx. apply Hdom2. unfold h1. cbn. rewrite BM.gso by auto. exact Hnone.
+      * intros x Hx. rewrite Hn2. cbn. apply in_addrs_app in Hx. destruct Hx as [Hx|[E|[]]]; [|cbn in E; rewrite <- E; lia].
+        pose proof (rp_fresh _ _ _ R x Hx). unfold a. lia.
+      * rewrite Hi2. exact (rp_iter _ _ _ R).
+      * rewrite Hd2. exact (rp_del _ _ _ R).
+      * rewrite (rp_n _ _ _ R). reflexivity.
+      * rewrite (rp_t _ _ _ R). reflexivity.
+      * rewrite binds_snoc. unfold names. rewrite map_app. cbn. apply NoDup_app_snoc; [exact (rp_names _ _ _ R)|exact Hnfresh].
+      * intros d Hd. rewrite binds_snoc in Hd. unfold names in Hd. rewrite map_app in Hd. apply in_app_or in Hd.
+        destruct Hd as [Hd|[E|[]]]; [|cbn in E; rewrite <- E; lia]. pose proof (rp_bound _ _ _ R d Hd). lia.
+      * lia.
+    + apply Hev; [|rewrite Hn2; reflexivity]. intros x y Hp. apply in_app_or in Hp. destruct Hp as [Hp|[E|[]]]; auto.
+Qed.
